@@ -131,6 +131,17 @@ pub fn triggers() -> Vec<String> {
             }
         }
     }
+    // alternations of three branches where a later one-character branch overlaps the start of an
+    // earlier multi-character branch (merging or reordering branches changes the spans only)
+    let br = ["a", "b", "bc", "ab", "ba", "[bc]"];
+    for x in br {
+        for y in br {
+            for z in br {
+                v.push(format!("{}|{}|{}", x, y, z));
+                v.push(format!("(?:{}|{}|{})d", x, y, z));
+            }
+        }
+    }
     for n in 1..=5 {
         v.push("a".repeat(n));
         v.push(format!("(?:a|b){{{}}}", n));
